@@ -12,3 +12,22 @@ package cgen
 //@   prop C11
 //@   pure
 //@   loop 1 invariant (isnil(base(s)) || fresh(base(s))) && len(s) >= len(pkgPrefix) && (len(s) >= 1 || underscore)
+
+// Small helpers on status messages and on the output buffer: no panic for any argument.
+//@ func statusMsgIsError
+//@   prop C11
+//@   pure
+
+//@ func statusMsgIsNote
+//@   prop C11
+//@   pure
+
+//@ func statusMsgIsSuspension
+//@   prop C11
+//@   pure
+
+//@ func (*buffer).undoWrites
+//@   prop C11
+//@   requires b != nil
+//@   ensures len(*b) <= old(len(*b)) && base(*b) == old(base(*b))
+//@   modifies *b
